@@ -178,6 +178,54 @@ theorem cycleReachable_sound (P : Prims) (aliases : List (Str × Str)) (text : S
   intro hnd
   exact (List.nodup_append.mp hnd).2.2 a (getLast?_mem hl1) a (getLast?_mem hl2) rfl
 
+/-- … and it reports every reachable cycle: the closure over `aliases.length` rounds is complete. -/
+theorem cycleReachable_complete (P : Prims) (aliases : List (Str × Str)) (text : Str)
+    (h : HasCycleFrom P aliases text) : cycleReachable P aliases text = true := by
+  obtain ⟨w, hw, hnd⟩ := h
+  obtain ⟨a, hreach, hloop⟩ := cycle_of_walk hw hnd
+  unfold cycleReachable
+  refine List.any_eq_true.mpr ⟨a, ?_, ?_⟩
+  · unfold reachable
+    apply closure_complete _ _ a (missing_le aliases _)
+    rcases hreach with h' | ⟨s, hs, hr⟩
+    · exact Or.inl (mem_addNew.mpr (Or.inr h'))
+    · exact Or.inr ⟨s, mem_addNew.mpr (Or.inr hs), hr⟩
+  · simp only [List.contains_eq_mem, decide_eq_true_eq]
+    apply closure_complete _ _ a (missing_le aliases _)
+    cases hloop with
+    | step hb => exact Or.inl (mem_addNew.mpr (Or.inr hb))
+    | trans hb hr => exact Or.inr ⟨_, mem_addNew.mpr (Or.inr hb), hr⟩
+
+/-- the oracle's decidable test is exactly the Spec notion. -/
+theorem cycleReachable_iff (P : Prims) (aliases : List (Str × Str)) (text : Str) :
+    cycleReachable P aliases text = true ↔ HasCycleFrom P aliases text :=
+  ⟨cycleReachable_sound P aliases text, cycleReachable_complete P aliases text⟩
+
+/-- the Spec predicate `cycSpec` evaluated by the `o.c32.cyc` oracle holds of the model for every
+    rule: accepted ⇒ no reachable cycle, circular error ⇒ a reachable cycle. -/
+theorem cycSpec_holds (P : Prims) (aliases : List (Str × Str)) (rule : Str) :
+    cycSpec P aliases rule
+      (match ruleSource P aliases rule with
+       | .ok _ => .accepted
+       | .err (.circular _) => .circular
+       | .panic => .panicked
+       | _ => .otherError) = true := by
+  cases hr : ruleSource P aliases rule with
+  | ok r =>
+    simp only [cycSpec, Bool.not_eq_eq_eq_not, Bool.not_true]
+    cases hc : cycleReachable P aliases rule with
+    | false => rfl
+    | true => exact absurd (cycleReachable_sound P aliases rule hc) (accepted_acyclic P aliases rule r hr)
+  | err e =>
+    cases e with
+    | circular x =>
+      simp only [cycSpec]
+      exact cycleReachable_complete P aliases rule (circular_has_cycle P aliases rule x hr).1
+    | _ => rfl
+  | panic => rfl
+  | oom => rfl
+  | fuel => rfl
+
 /-- … hence an accepted rule passes it (the clause `cycSpec … accepted` of the oracle). -/
 theorem accepted_not_cycleReachable (P : Prims) (aliases : List (Str × Str)) (rule : Str)
     (r : Str × List (Nat × Field)) (h : ruleSource P aliases rule = .ok r) :
